@@ -108,6 +108,8 @@ func (g *ExecutionGraph) cycleDfs(t string, visited map[string]bool) error {
 			return err
 		}
 	}
+	// only nodes on the current path count: a node reachable twice is not a cycle
+	delete(visited, t)
 
 	return nil
 }
